@@ -67,3 +67,11 @@ VARIANTS += [
     M('C11', 'refactor-detection-file-opened-in-with', E(UT, "                for line in open(path, 'rb'):\n                    detector.feed(line)\n                    if detector.done:\n                        break",
                                                           "                with open(path, 'rb') as fh:\n                    for line in fh:\n                        detector.feed(line)\n                        if detector.done:\n                            break"), kind='refactor'),
 ]
+
+VARIANTS += [
+    M('C11', 'temporary-directory-recognised-only-with-a-separator', E(GT, "                tmpdir = self.tmp_dir_shell_var and TMPDIR in line", "                tmpdir = self.tmp_dir_shell_var and TERM_TMPDIR in line"),
+      rule='C11-SPECIFICS', key="line='/tmp/tmpGEN'"),
+    M('C11', 'host-recognised-only-as-a-whole-word-at-line-start', E(GT, "                host = self.host in line", "                host = line.startswith(self.host)"),
+      rule='C11-SPECIFICS', key="line='value deepthought'"),
+    M('C11', 'refactor-specifics-flags-in-a-tuple', E(GT, "                if any((datelike, dtlike, host, ip, cwd, homedir, tmpdir,\n                        user)):", "                found = (datelike, dtlike, host, ip, cwd, homedir, tmpdir, user)\n                if any(found):"), kind='refactor'),
+]
